@@ -164,17 +164,16 @@ func (g *InterProceduralFlowGraph) BuildGraph() {
 
 	// Writes the summaries to file if the option is set
 	if summariesFile != nil {
-		// Read-only operation on summaries
-		go func() {
-			for _, summary := range g.Summaries {
-				if summary == nil {
-					continue
-				}
-				_, _ = summariesFile.WriteString(fmt.Sprintf("%s:\n", summary.Parent.String()))
-				summary.Print(false, summariesFile)
-				_, _ = summariesFile.WriteString("\n")
+		// Read-only operation on summaries. It must complete before the summaries are linked below and before the
+		// file is closed: it iterates over the map that step 3 inserts into.
+		for _, summary := range g.Summaries {
+			if summary == nil {
+				continue
 			}
-		}()
+			_, _ = summariesFile.WriteString(fmt.Sprintf("%s:\n", summary.Parent.String()))
+			summary.Print(false, summariesFile)
+			_, _ = summariesFile.WriteString("\n")
+		}
 	}
 
 	// STEP 3: link all the summaries together
